@@ -1713,6 +1713,13 @@ def run(prop, tier):
         run_c06(res, tier, tables)
     else:
         run_c15(res, tier, tables)
+    if prop == "C06":
+        try:  # wp2b_affix: naming rules whose analysis is inside the model (read-only, function of the token list)
+            import props_bfull2
+
+            props_bfull2.extra(res, tier, "C06")
+        except ImportError:
+            pass
     return res.finish(max(nobl, 1), ndis, cmd, thms)
 
 
